@@ -18,6 +18,14 @@ residuals of the single run are the `k`-th components of the batch residuals (`c
 order of the loads in every component (`sec_order`).  `ps_sim`, `ts_sim`, `fold_sim`, `process_sim`,
 `twoPass_sim`; turning points of a positively scaled signal: `newTurns_scale` (with flush),
 `dropBase_scale`, `flushBase_scale`.
+
+Running strain extremes (`updateLF` is element-wise `vzip max` / `vzip min` since the fix 68eb0ef): in
+part 1 the vectors must be non-empty (`turnStep_gTurn`, `fold_gTurn`, `process_one` carry
+`eMinLF ≠ [] ∧ eMaxLF ≠ []`, established by `procInit`); in part 2 the relation `LFX` (k-th component
+of the batch extremes = the single run's, right lengths, `projLF'` columns of the records agree) is
+carried beside `Sim`: `ps_newrecs` (one-run fact: records appended by `processSample` carry the incoming
+extremes), `ts_simLF`, `fold_simLF`, `process_simLF` (`PLF`, also relates `prevLoad` as `c₀·P` / `c_k·P`,
+which decides the updated extreme), `twoProc_simLF`, `twoPass_simLF`.
 -/
 import Proofs.Lemmas.HCMCommon
 import Proofs.Lemmas.Sym
@@ -174,10 +182,31 @@ structure RelP (st : State) (prev : Int) (g : Spec.GState) : Prop where
   prev : g.prevLoad = prev
   strains : st.strainValues = g.strains
 
+theorem rep_vzip_max (a : Vec) (x : Int) (h : a ≠ []) : rep (vzip max a [x]) = max (rep a) x := by
+  cases a with
+  | nil => exact absurd rfl h
+  | cons y a => simp [vzip, rep]
+
+theorem rep_vzip_min (a : Vec) (x : Int) (h : a ≠ []) : rep (vzip min a [x]) = min (rep a) x := by
+  cases a with
+  | nil => exact absurd rfl h
+  | cons y a => simp [vzip, rep]
+
+theorem vzip_one_ne (f : Int → Int → Int) (a : Vec) (x : Int) (h : a ≠ []) : vzip f a [x] ≠ [] := by
+  cases a with
+  | nil => exact absurd rfl h
+  | cons y a => simp [vzip]
+
+theorem ofG_strain (j : Spec.GPoint) : (ofG j).strain = [j.strain] := by cases j; rfl
+
+/-- one step of the detector loop on one point = `gTurn`; the running strain extremes (kept per point
+as vectors, element-wise `max`/`min`) must be non-empty vectors, which `process` guarantees -/
 theorem turnStep_gTurn (law : Law) (st : State) (prev : Int) (g : Spec.GState) (l : Int)
-    (h : RelP st prev g) :
-    RelP (turnStep law (st, prev) [l]).1 (turnStep law (st, prev) [l]).2 (Spec.gTurn law st.run g l) := by
+    (h : RelP st prev g) (hne : st.eMinLF ≠ [] ∧ st.eMaxLF ≠ []) :
+    RelP (turnStep law (st, prev) [l]).1 (turnStep law (st, prev) [l]).2 (Spec.gTurn law st.run g l) ∧
+    (turnStep law (st, prev) [l]).1.eMinLF ≠ [] ∧ (turnStep law (st, prev) [l]).1.eMaxLF ≠ [] := by
   obtain ⟨hr, hp, hs⟩ := h
+  obtain ⟨hne1, hne2⟩ := hne
   have hlen : st.res.length = g.res.length := by rw [hr.res]; simp
   have hr' : Rel { st with fed := st.fed ++ [(st.run, [l])] } g := ⟨hr.1, hr.2, hr.3, hr.4, hr.5, hr.6, hr.7, hr.8⟩
   have key := ps_gstep law l (g.res.length / 2 + 2) { st with fed := st.fed ++ [(st.run, [l])] } g hr' (by omega)
@@ -194,11 +223,13 @@ theorem turnStep_gTurn (law : Law) (st : State) (prev : Int) (g : Spec.GState) (
   simp only at k2 k3 k4 k5 f1 f2 f3 f4 f5 f6 f7 f8 f9 r1 r2 r3 r4 r5 r6 r7 r8 ⊢
   subst k2
   rw [k4, hp]
+  rw [← f8] at hne1
+  rw [← f9] at hne2
   by_cases hl : l.natAbs > st'.loadMax <;> by_cases hpl : prev < l <;>
-    simp only [hl, if_true, if_false, updateLF, hpl] <;>
-    refine ⟨⟨?_, ?_, ?_, ?_, ?_, ?_, ?_, ?_⟩, ?_, ?_⟩ <;> simp only [rep_ite, ite_gt_max, ite_lt_min] <;>
-    first | assumption | rfl | (rw [r7, rep_ofG_strain]) | (rw [r6, rep_ofG_strain]) | (simp [*]; done) |
-      (simp [*]; omega)
+    simp only [hl, if_true, if_false, updateLF, hpl, ofG_strain] <;>
+    refine ⟨⟨⟨?_, ?_, ?_, ?_, ?_, ?_, ?_, ?_⟩, ?_, ?_⟩, ?_, ?_⟩ <;>
+    first | assumption | rfl | (rw [rep_vzip_max _ _ hne2, r7]) | (rw [rep_vzip_min _ _ hne1, r6]) |
+      exact vzip_one_ne _ _ _ hne1 | exact vzip_one_ne _ _ _ hne2 | (simp [*]; done) | (simp [*]; omega)
 
 /-- frame of the fold over `turnStep` -/
 theorem fold_frame (law : Law) : ∀ (loads : List Vec) (st : State) (prev : Int),
@@ -219,19 +250,19 @@ theorem fold_frame (law : Law) : ∀ (loads : List Vec) (st : State) (prev : Int
     rw [b3, a3, a2]; simp
 
 theorem fold_gTurn (law : Law) (run : Nat) : ∀ (ls : List Int) (st : State) (prev : Int) (g : Spec.GState),
-    RelP st prev g → st.run = run →
+    RelP st prev g → st.run = run → (st.eMinLF ≠ [] ∧ st.eMaxLF ≠ []) →
     let r := (ls.map fun x => [x]).foldl (turnStep law) (st, prev)
-    RelP r.1 r.2 (ls.foldl (Spec.gTurn law run) g) := by
+    RelP r.1 r.2 (ls.foldl (Spec.gTurn law run) g) ∧ r.1.eMinLF ≠ [] ∧ r.1.eMaxLF ≠ [] := by
   intro ls
   induction ls with
-  | nil => intro st prev g h _; simpa using h
+  | nil => intro st prev g h _ hne; exact ⟨by simpa using h, hne⟩
   | cons x ls ih =>
-    intro st prev g h hrun
+    intro st prev g h hrun hne
     simp only [List.map_cons, List.foldl_cons]
-    have h1 := turnStep_gTurn law st prev g x h
+    have h1 := turnStep_gTurn law st prev g x h hne
     have h2 := (turnStep_frame law st prev [x]).2.1
     rw [hrun] at h1
-    exact ih _ _ _ h1 (h2.trans hrun)
+    exact ih _ _ _ h1.1 (h2.trans hrun) h1.2
 
 /-! ### `process`: the loads handed to the HCM loop -/
 
@@ -314,7 +345,8 @@ theorem getLastD_one (L : List Int) (hL : L ≠ []) (d : Vec) :
 theorem process_one (law : Law) (st : State) (g : Spec.GState) (L : List Int) (flush : Bool)
     (h : RelP st st.prevLoad g) (hts : st.ts.tail.length ≤ st.ts.head)
     (hlast : (∃ x0, st.lastSample = [x0]) ∨ st.ts.head = 0)
-    (hst : st.started = true ∨ (rep st.eMinLF = 0 ∧ rep st.eMaxLF = 0)) (hL : L ≠ []) :
+    (hst : (st.started = true ∧ st.eMinLF ≠ [] ∧ st.eMaxLF ≠ []) ∨
+      (st.started = false ∧ rep st.eMinLF = 0 ∧ rep st.eMaxLF = 0)) (hL : L ≠ []) :
     ∃ ls : List Int,
       RelP (process law st (L.map fun x => [x]) flush) (process law st (L.map fun x => [x]) flush).prevLoad
         (ls.foldl (Spec.gTurn law (st.run + 1)) g) ∧
@@ -322,7 +354,9 @@ theorem process_one (law : Law) (st : State) (g : Spec.GState) (L : List Int) (f
       (process law st (L.map fun x => [x]) flush).fed = st.fed ++ ls.map (fun x => (st.run + 1, [x])) ∧
       (process law st (L.map fun x => [x]) flush).ts.tail.length ≤ (process law st (L.map fun x => [x]) flush).ts.head ∧
       (∃ x0, (process law st (L.map fun x => [x]) flush).lastSample = [x0]) ∧
-      (process law st (L.map fun x => [x]) flush).started = true := by
+      (process law st (L.map fun x => [x]) flush).started = true ∧
+      (process law st (L.map fun x => [x]) flush).eMinLF ≠ [] ∧
+      (process law st (L.map fun x => [x]) flush).eMaxLF ≠ [] := by
   obtain ⟨x0, hx0⟩ : ∃ x0 : Int, st.lastSample = [x0] ∨ st.ts.head = 0 := by
     rcases hlast with ⟨x0, hx⟩ | hx
     · exact ⟨x0, Or.inl hx⟩
@@ -335,25 +369,35 @@ theorem process_one (law : Law) (st : State) (g : Spec.GState) (L : List Int) (f
     obtain ⟨⟨r1, r2, r3, r4, r5, r6, r7, r8⟩, hp, hs⟩ := h
     refine ⟨⟨r1, r2, r3, r4, r5, ?_, ?_, r8⟩, hp, hs⟩
     · simp only [procInit]
-      rcases hst with hs | ⟨hs, -⟩
+      rcases hst with ⟨hs, -, -⟩ | ⟨-, hs, -⟩
       · rw [if_pos hs]; exact r6
       · split
         · exact r6
         · rw [rep_replicate, ← r6, hs]
     · simp only [procInit]
-      rcases hst with hs | ⟨-, hs⟩
+      rcases hst with ⟨hs, -, -⟩ | ⟨-, -, hs⟩
       · rw [if_pos hs]; exact r7
       · split
         · exact r7
         · rw [rep_replicate, ← r7, hs]
-  have hf := fold_gTurn law (st.run + 1) bl _ _ _ hinit rfl
+  have hinitne : (procInit st (L.map fun x => [x]) flush).eMinLF ≠ [] ∧
+      (procInit st (L.map fun x => [x]) flush).eMaxLF ≠ [] := by
+    simp only [procInit]
+    rcases hst with ⟨hs, h1, h2⟩ | ⟨hs, -, -⟩
+    · rw [if_pos hs, if_pos hs]; exact ⟨h1, h2⟩
+    · cases L with
+      | nil => exact absurd rfl hL
+      | cons a L => simp [hs]
+  have hf' := fold_gTurn law (st.run + 1) bl _ _ _ hinit rfl hinitne
+  have hf := hf'.1
+  have hfne := hf'.2
   have hfr := fold_frame law (bl.map fun x => [x]) (procInit st (L.map fun x => [x]) flush) st.prevLoad
-  simp only at hf hfr ⊢
+  simp only at hf hfne hfr ⊢
   obtain ⟨f1, f2, f3, f4, f5⟩ := hfr
   have hnt := (newTurns_idx st.ts ((L.map fun x => [x]).map rep) flush hts).2
   generalize List.foldl (turnStep law) (procInit st (List.map (fun x => [x]) L) flush, st.prevLoad)
-    (List.map (fun x => [x]) bl) = r at hf f1 f2 f3 f4 f5 ⊢
-  refine ⟨⟨?_, ?_, ?_⟩, ?_, ?_, ?_, ?_, ?_⟩
+    (List.map (fun x => [x]) bl) = r at hf hfne f1 f2 f3 f4 f5 ⊢
+  refine ⟨⟨?_, ?_, ?_⟩, ?_, ?_, ?_, ?_, ?_, hfne.1, hfne.2⟩
   · exact ⟨hf.rel.res, hf.rel.iz, hf.rel.ir, hf.rel.ir1, hf.rel.lmax, hf.rel.emin, hf.rel.emax, hf.rel.recs⟩
   · exact hf.prev
   · exact hf.strains
@@ -432,7 +476,7 @@ theorem twoPass_one (law : Law) (s : List Int) : ∃ ls1 ls2 : List Int,
     generalize dropBase (List.map (fun x => x) s) s = s', (dropBase_ne (List.map (fun x => x) s) s hs) = hs'
     generalize flushBase (List.map (fun x => x) (0 :: s')) = flush
     obtain ⟨ls1, h1, hrun1, hfed1, hts1, hlast1, hst1⟩ :=
-      process_one law {} {} (0 :: s') flush relP_init (Nat.le_refl 0) (Or.inr rfl) (Or.inr ⟨rfl, rfl⟩) (by simp)
+      process_one law {} {} (0 :: s') flush relP_init (Nat.le_refl 0) (Or.inr rfl) (Or.inr ⟨rfl, rfl, rfl⟩) (by simp)
     obtain ⟨ls2, h2, hrun2, hfed2, -, -, -⟩ :=
       process_one law _ _ s' true h1 hts1 (Or.inl hlast1) (Or.inl hst1) hs'
     refine ⟨ls1, ls2, ?_, ?_⟩
@@ -715,6 +759,65 @@ theorem flushBase_scale (c : Int) (hc : c ≠ 0) (S : List Int) : flushBase (S.m
   rw [← List.map_tail, ← List.map_append, findTurns_scale c hc, List.map_map, List.length_map]
   rfl
 
+/-! ### the running strain extremes (kept per point, element-wise): one-run facts -/
+
+/-- copy of `C05.projLF` -/
+def projLF' (k : Nat) (h : Hyst) : Int × Int := (h.eMinLF.getD k 0, h.eMaxLF.getD k 0)
+
+/-- the records appended by `processSample` carry the running extremes of the incoming state -/
+theorem ps_newrecs (law : Law) (load : Vec) (fuel : Nat) (st : State) :
+    ∃ news, (processSample law load fuel st).1.recs = st.recs ++ news ∧
+      ∀ h ∈ news, h.eMinLF = st.eMinLF ∧ h.eMaxLF = st.eMaxLF := by
+  fun_induction processSample law load fuel st with
+  | case1 st => exact ⟨[], by simp, by simp⟩
+  | case2 fuel st cur h prev rest hres hgt p st' =>
+    exact ⟨[halfHyst st prev], rfl, by simp [halfHyst]⟩
+  | case3 fuel st cur h prev rest hres hgt p => exact ⟨[], by simp [noteStrain], by simp⟩
+  | case4 => exact ⟨[], by simp, by simp⟩
+  | case5 => exact ⟨[], by simp [noteStrain], by simp⟩
+  | case6 fuel st cur h hlt p1 p0 rest hres curExt prevExt hc p =>
+    exact ⟨[], by simp [noteStrain], by simp⟩
+  | case7 fuel st cur h hlt p1 p0 rest hres curExt prevExt hc st' hge ih =>
+    obtain ⟨news, h1, h2⟩ := ih
+    refine ⟨closedHyst st p0 p1 :: news, ?_, ?_⟩
+    · rw [h1]; simp [st']
+    · intro x hx
+      rcases List.mem_cons.mp hx with rfl | hx
+      · exact ⟨rfl, rfl⟩
+      · exact h2 x hx
+  | case8 fuel st cur h hlt p1 p0 rest hres curExt prevExt hc st' hge p =>
+    exact ⟨[closedHyst st p0 p1], rfl, by simp [closedHyst]⟩
+  | case9 => exact ⟨[], by simp, by simp⟩
+
+structure LFX (cs : List Int) (k : Nat) (a b : State) : Prop where
+  emin : b.eMinLF = compV k a.eMinLF
+  emax : b.eMaxLF = compV k a.eMaxLF
+  lmin : a.eMinLF.length = cs.length
+  lmax : a.eMaxLF.length = cs.length
+  recs : a.recs.map (projLF' k) = b.recs.map (projLF' 0)
+
+theorem map_eq_replicate {α β : Type} (f : α → β) (x : β) (l : List α) (h : ∀ a ∈ l, f a = x) :
+    l.map f = List.replicate l.length x := by
+  induction l with
+  | nil => rfl
+  | cons a l ih =>
+    simp only [List.map_cons, List.length_cons, List.replicate_succ]
+    rw [h a (by simp), ih (fun b hb => h b (by simp [hb]))]
+
+theorem compV_vzip (f : Int → Int → Int) (a b : Vec) (k : Nat) (ha : k < a.length) (hb : k < b.length) :
+    compV k (vzip f a b) = vzip f (compV k a) (compV k b) := by
+  simp only [compV, vzip_one, getD_vzip f a b k ha hb]
+
+theorem compV_replicate (n : Nat) (j : Nat) (hj : j < n) : compV j (List.replicate n 0) = [0] := by
+  simp [compV, List.getD_eq_getElem?_getD, hj]
+
+theorem ite_state_eMinLF (c : Prop) [Decidable c] (s : State) (m : Nat) :
+    (if c then { s with loadMax := m } else s).eMinLF = s.eMinLF := by split <;> rfl
+theorem ite_state_eMaxLF (c : Prop) [Decidable c] (s : State) (m : Nat) :
+    (if c then { s with loadMax := m } else s).eMaxLF = s.eMaxLF := by split <;> rfl
+theorem ite_state_recs (c : Prop) [Decidable c] (s : State) (m : Nat) :
+    (if c then { s with loadMax := m } else s).recs = s.recs := by split <;> rfl
+
 section sim
 variable (law : Law) (hl : SignPreserving' law) (cs : List Int) (hc : ∀ c ∈ cs, 0 < c) (k : Nat)
   (hk : k < cs.length)
@@ -963,6 +1066,212 @@ theorem process_sim (L : List Int) (flush : Bool) (a b : State) (h : PSim law cs
       rw [List.getLastD_eq_getLast?, List.getLast?_map, List.getLast?_eq_some_getLast hL]; rfl
     · simp only [b5, procInit]
       rw [List.getLastD_eq_getLast?, List.getLast?_map, List.getLast?_eq_some_getLast hL]; rfl
+
+/-! ### simulation of the running strain extremes -/
+
+theorem ts_simLF (l P : Int) (a b : State) (h : Sim law cs k a b) (hx : LFX cs k a b) :
+    LFX cs k (turnStep law (a, rep cs * P) (fA cs l)).1
+      (turnStep law (b, cs.getD k 1 * P) (fB (cs.getD k 1) l)).1 := by
+  have hn : 0 < cs.length := by omega
+  have hc0 := rep_pos cs hc hn
+  have hck := getD_pos cs hc k hk
+  have hlen : b.res.length = a.res.length := by rw [h.res]; simp
+  have h' : Sim law cs k { a with fed := a.fed ++ [(a.run, fA cs l)] }
+      { b with fed := b.fed ++ [(b.run, fB (cs.getD k 1) l)] } :=
+    ⟨h.res, h.wf, h.chain, h.iz, h.izb, h.irb, h.ir1, h.lmax, h.run, h.recs⟩
+  have key := ps_sim law hl cs hc k hk l (a.res.length / 2 + 2) _ _ h' (by simp)
+  have fa := processSample_frame law (fA cs l) (a.res.length / 2 + 2) { a with fed := a.fed ++ [(a.run, fA cs l)] }
+  have fb := processSample_frame law (fB (cs.getD k 1) l) (a.res.length / 2 + 2)
+    { b with fed := b.fed ++ [(b.run, fB (cs.getD k 1) l)] }
+  obtain ⟨nA, hnA, hnA'⟩ := ps_newrecs law (fA cs l) (a.res.length / 2 + 2)
+    { a with fed := a.fed ++ [(a.run, fA cs l)] }
+  obtain ⟨nB, hnB, hnB'⟩ := ps_newrecs law (fB (cs.getD k 1) l) (a.res.length / 2 + 2)
+    { b with fed := b.fed ++ [(b.run, fB (cs.getD k 1) l)] }
+  simp only [turnStep, hlen, rep_fA cs hn, rep_fB]
+  simp only at fa fb hnA hnA' hnB hnB'
+  generalize processSample law (fA cs l) (a.res.length / 2 + 2) _ = psa at key fa hnA ⊢
+  generalize processSample law (fB (cs.getD k 1) l) (a.res.length / 2 + 2) _ = psb at key fb hnB ⊢
+  obtain ⟨a', p⟩ := psa
+  obtain ⟨b', q⟩ := psb
+  obtain ⟨hs, hq, hw, -⟩ := key
+  obtain ⟨-, -, -, -, -, -, -, fa8, fa9⟩ := fa
+  obtain ⟨-, -, -, -, -, -, -, fb8, fb9⟩ := fb
+  simp only at hs hq hw fa8 fa9 fb8 fb9 hnA hnB ⊢
+  subst hq
+  obtain ⟨xmin, xmax, lmin, lmax, xrecs⟩ := hx
+  -- the records appended in this step
+  have hlenAB : nA.length = nB.length := by
+    have e1 := congrArg List.length hs.recs
+    have e2 := congrArg List.length xrecs
+    rw [hnA, hnB] at e1
+    simp only [List.length_map, List.length_append] at e1 e2
+    omega
+  have hrecs' : a'.recs.map (projLF' k) = b'.recs.map (projLF' 0) := by
+    rw [hnA, hnB, List.map_append, List.map_append, xrecs]
+    congr 1
+    rw [map_eq_replicate (projLF' k) (a.eMinLF.getD k 0, a.eMaxLF.getD k 0) nA
+        (fun x hx => by simp only [projLF', (hnA' x hx).1, (hnA' x hx).2]),
+      map_eq_replicate (projLF' 0) (a.eMinLF.getD k 0, a.eMaxLF.getD k 0) nB
+        (fun x hx => by simp only [projLF', (hnB' x hx).1, (hnB' x hx).2, xmin, xmax, compV, List.getD_cons_zero]),
+      hlenAB]
+  have hpk : k < p.strain.length := by rw [hw.strain]; exact hk
+  by_cases hPl : P < l
+  · have h1 : rep cs * P < rep cs * l := by nlinarith
+    have h2 : cs.getD k 1 * P < cs.getD k 1 * l := by nlinarith
+    unfold updateLF
+    rw [if_pos h1, if_pos h2]
+    refine ⟨?_, ?_, ?_, ?_, ?_⟩ <;> simp only [ite_state_eMinLF, ite_state_eMaxLF, ite_state_recs]
+    · rw [fa8, fb8, xmin]
+    · rw [fa9, fb9, xmax, compPt, compV_vzip _ _ _ _ (by omega) hpk]
+    · rw [fa8, lmin]
+    · rw [fa9, length_vzip, lmax, hw.strain, Nat.min_self]
+    · exact hrecs'
+  · have h1 : ¬ rep cs * P < rep cs * l := by nlinarith
+    have h2 : ¬ cs.getD k 1 * P < cs.getD k 1 * l := by nlinarith
+    unfold updateLF
+    rw [if_neg h1, if_neg h2]
+    refine ⟨?_, ?_, ?_, ?_, ?_⟩ <;> simp only [ite_state_eMinLF, ite_state_eMaxLF, ite_state_recs]
+    · rw [fa8, fb8, xmin, compPt, compV_vzip _ _ _ _ (by omega) hpk]
+    · rw [fa9, fb9, xmax]
+    · rw [fa8, length_vzip, lmin, hw.strain, Nat.min_self]
+    · rw [fa9, lmax]
+    · exact hrecs'
+
+theorem fold_simLF : ∀ (ls : List Int) (a b : State) (P : Int), Sim law cs k a b → LFX cs k a b →
+    LFX cs k ((ls.map (fA cs)).foldl (turnStep law) (a, rep cs * P)).1
+      ((ls.map (fB (cs.getD k 1))).foldl (turnStep law) (b, cs.getD k 1 * P)).1 ∧
+    ∃ P', ((ls.map (fA cs)).foldl (turnStep law) (a, rep cs * P)).2 = rep cs * P' ∧
+      ((ls.map (fB (cs.getD k 1))).foldl (turnStep law) (b, cs.getD k 1 * P)).2 = cs.getD k 1 * P' := by
+  have hn : 0 < cs.length := by omega
+  intro ls
+  induction ls with
+  | nil => intro a b P _ hx; exact ⟨hx, P, rfl, rfl⟩
+  | cons x ls ih =>
+    intro a b P h hx
+    simp only [List.map_cons, List.foldl_cons]
+    have ea : turnStep law (a, rep cs * P) (fA cs x) =
+        ((turnStep law (a, rep cs * P) (fA cs x)).1, rep cs * x) :=
+      Prod.ext rfl ((turnStep_frame law a (rep cs * P) (fA cs x)).2.2.2.2.2.trans (rep_fA cs hn x))
+    have eb : turnStep law (b, cs.getD k 1 * P) (fB (cs.getD k 1) x) =
+        ((turnStep law (b, cs.getD k 1 * P) (fB (cs.getD k 1) x)).1, cs.getD k 1 * x) :=
+      Prod.ext rfl ((turnStep_frame law b (cs.getD k 1 * P) (fB (cs.getD k 1) x)).2.2.2.2.2.trans (rep_fB _ x))
+    rw [ea, eb]
+    exact ih _ _ x (ts_sim law hl cs hc k hk x a b _ _ h) (ts_simLF law hl cs hc k hk x P a b h hx)
+
+omit hl in
+/-- both runs are fed loads at the same positions -/
+theorem procLoads_sim (L : List Int) (flush : Bool) (a b : State) (h : PSim law cs k a b) :
+    ∃ bl : List Int, procLoads a.ts a.lastSample (L.map (fA cs)) flush = bl.map (fA cs) ∧
+      procLoads b.ts b.lastSample (L.map (fB (cs.getD k 1))) flush = bl.map (fB (cs.getD k 1)) := by
+  have hn : 0 < cs.length := by omega
+  have hc0 := rep_pos cs hc hn
+  have hck := getD_pos cs hc k hk
+  obtain ⟨hs, hhead, ⟨T, hTa, hTb⟩, htl, hlast⟩ := h
+  obtain ⟨x0, hx0⟩ : ∃ x0, (a.lastSample = fA cs x0 ∧ b.lastSample = fB (cs.getD k 1) x0) ∨ a.ts.head = 0 := by
+    rcases hlast with ⟨x0, hx⟩ | hx
+    · exact ⟨x0, Or.inl hx⟩
+    · exact ⟨0, Or.inr hx⟩
+  have htlb : b.ts.tail.length ≤ b.ts.head := by
+    rw [hhead, hTb]; rw [hTa] at htl; simpa using htl
+  have hla := procLoads_map (fA cs) a.ts a.lastSample x0 L flush htl
+    (by rcases hx0 with h | h; exact Or.inl h.1; exact Or.inr h)
+  have hlb := procLoads_map (fB (cs.getD k 1)) b.ts b.lastSample x0 L flush htlb
+    (by rcases hx0 with h | h; exact Or.inl h.2; exact Or.inr (hhead.trans h))
+  have hta : a.ts = ⟨T.map (rep cs * ·), a.ts.head⟩ := by rw [← hTa]
+  have htb : b.ts = ⟨T.map (cs.getD k 1 * ·), a.ts.head⟩ := by rw [← hTb, ← hhead]
+  have hra : (L.map fun x => rep (fA cs x)) = L.map (rep cs * ·) := by
+    apply List.map_congr_left; intro x _; exact rep_fA cs hn x
+  have hrb : (L.map fun x => rep (fB (cs.getD k 1) x)) = L.map (cs.getD k 1 * ·) := by
+    apply List.map_congr_left; intro x _; exact rep_fB _ x
+  have hnta : newTurns a.ts (L.map fun x => rep (fA cs x)) flush =
+      (⟨(newTurns ⟨T, a.ts.head⟩ L flush).1.tail.map (rep cs * ·), (newTurns ⟨T, a.ts.head⟩ L flush).1.head⟩,
+       (newTurns ⟨T, a.ts.head⟩ L flush).2.map fun p => (p.1, rep cs * p.2)) := by
+    rw [hra, hta]; exact newTurns_scale (rep cs) (by omega) T a.ts.head L flush
+  have hntb : newTurns b.ts (L.map fun x => rep (fB (cs.getD k 1) x)) flush =
+      (⟨(newTurns ⟨T, a.ts.head⟩ L flush).1.tail.map (cs.getD k 1 * ·), (newTurns ⟨T, a.ts.head⟩ L flush).1.head⟩,
+       (newTurns ⟨T, a.ts.head⟩ L flush).2.map fun p => (p.1, cs.getD k 1 * p.2)) := by
+    rw [hrb, htb]; exact newTurns_scale (cs.getD k 1) (by omega) T a.ts.head L flush
+  rw [hnta, baseLoads_scale] at hla
+  rw [hntb, hhead, baseLoads_scale] at hlb
+  have hidx := (newTurns_idx ⟨T, a.ts.head⟩ L flush (by rw [hTa] at htl; simpa using htl)).2
+  generalize baseLoads a.ts.head x0 L (newTurns ⟨T, a.ts.head⟩ L flush).2 = bl at hla hlb
+  exact ⟨_, hla, hlb⟩
+
+/-- process-level relation for the running strain extremes -/
+structure PLF (a b : State) : Prop where
+  prev : ∃ P, a.prevLoad = rep cs * P ∧ b.prevLoad = cs.getD k 1 * P
+  recs : a.recs.map (projLF' k) = b.recs.map (projLF' 0)
+  started : b.started = a.started
+  lf : a.started = true → (b.eMinLF = compV k a.eMinLF ∧ b.eMaxLF = compV k a.eMaxLF ∧
+    a.eMinLF.length = cs.length ∧ a.eMaxLF.length = cs.length)
+
+theorem process_simLF (L : List Int) (flush : Bool) (a b : State) (h : PSim law cs k a b)
+    (hp : PLF cs k a b) (hL : L ≠ []) :
+    PLF cs k (process law a (L.map (fA cs)) flush) (process law b (L.map (fB (cs.getD k 1))) flush) := by
+  obtain ⟨bl, hla, hlb⟩ := procLoads_sim law cs hc k hk L flush a b h
+  obtain ⟨⟨P, hPa, hPb⟩, hrecs, hstarted, hlf⟩ := hp
+  have hs := h.sim
+  rw [process_eq, process_eq, hla, hlb, hPa, hPb]
+  have hinit : Sim law cs k (procInit a (L.map (fA cs)) flush) (procInit b (L.map (fB (cs.getD k 1))) flush) :=
+    ⟨hs.res, hs.wf, hs.chain, hs.iz, hs.izb, hs.irb, hs.ir1, hs.lmax, by simp [procInit, hs.run], hs.recs⟩
+  have hinitLF : LFX cs k (procInit a (L.map (fA cs)) flush) (procInit b (L.map (fB (cs.getD k 1))) flush) := by
+    cases L with
+    | nil => exact absurd rfl hL
+    | cons x L =>
+      simp only [procInit, hstarted, List.map_cons, List.headD_cons, length_fA]
+      by_cases hst : a.started = true
+      · obtain ⟨e1, e2, e3, e4⟩ := hlf hst
+        simp only [hst, if_true]
+        exact ⟨e1, e2, e3, e4, hrecs⟩
+      · simp only [hst, Bool.false_eq_true, if_false]
+        exact ⟨(compV_replicate _ k hk).symm, (compV_replicate _ k hk).symm, by simp, by simp, hrecs⟩
+  obtain ⟨hf, P', hP'a, hP'b⟩ := fold_simLF law hl cs hc k hk bl _ _ P hinit hinitLF
+  have fa := fold_frame law (bl.map (fA cs)) (procInit a (L.map (fA cs)) flush) (rep cs * P)
+  have fb := fold_frame law (bl.map (fB (cs.getD k 1))) (procInit b (L.map (fB (cs.getD k 1))) flush)
+    (cs.getD k 1 * P)
+  simp only at fa fb
+  generalize List.foldl (turnStep law) (procInit a (L.map (fA cs)) flush, rep cs * P) (bl.map (fA cs)) = ra
+    at hf fa hP'a ⊢
+  generalize List.foldl (turnStep law) (procInit b (L.map (fB (cs.getD k 1))) flush, cs.getD k 1 * P)
+    (bl.map (fB (cs.getD k 1))) = rb at hf fb hP'b ⊢
+  obtain ⟨-, -, -, a4, -⟩ := fa
+  obtain ⟨-, -, -, b4, -⟩ := fb
+  refine ⟨⟨P', hP'a, hP'b⟩, hf.recs, ?_, fun _ => ⟨hf.emin, hf.emax, hf.lmin, hf.lmax⟩⟩
+  simp only [a4, b4, procInit]
+
+omit hl hc hk in
+theorem pSim_init : PSim law cs k {} {} :=
+  ⟨⟨rfl, by intro p hp; simp at hp, trivial, rfl, rfl, rfl, Nat.le_refl 1, ⟨0, rfl, rfl⟩, rfl, rfl⟩,
+    rfl, ⟨[], rfl, rfl⟩, Nat.le_refl 0, Or.inr rfl⟩
+
+/-- the two passes (any first-run flush flag) give point `k` the running strain extremes it gets alone -/
+theorem twoProc_simLF (L' : List Int) (flush : Bool) (hL' : L' ≠ []) :
+    (process law (process law {} ((0 :: L').map (fA cs)) flush) (L'.map (fA cs)) true).recs.map (projLF' k) =
+      (process law (process law {} ((0 :: L').map (fB (cs.getD k 1))) flush)
+        (L'.map (fB (cs.getD k 1))) true).recs.map (projLF' 0) := by
+  have h0 := pSim_init law cs k
+  have p0 : PLF cs k {} {} := ⟨⟨0, by simp, by simp⟩, rfl, rfl, fun h => by simp at h⟩
+  have h1 := process_sim law hl cs hc k hk (0 :: L') flush _ _ h0 (by simp)
+  have p1 := process_simLF law hl cs hc k hk (0 :: L') flush _ _ h0 p0 (by simp)
+  exact (process_simLF law hl cs hc k hk L' true _ _ h1 p1 hL').recs
+
+theorem twoPass_simLF (L : List Int) :
+    (twoPassR law (L.map (fA cs))).recs.map (projLF' k) =
+      (twoPassR law (L.map (fB (cs.getD k 1)))).recs.map (projLF' 0) := by
+  have hn : 0 < cs.length := by omega
+  have hc0 := rep_pos cs hc hn
+  have hck := getD_pos cs hc k hk
+  by_cases hL : L = []
+  · subst hL; rfl
+  · rw [twoPass_eq law (fA cs) L hL cs.length (length_fA cs) (fA_zero cs),
+      twoPass_eq law (fB (cs.getD k 1)) L hL 1 (fun _ => rfl) (by simp [fB])]
+    have hra : ∀ S : List Int, (S.map fun x => rep (fA cs x)) = S.map (rep cs * ·) := by
+      intro S; apply List.map_congr_left; intro x _; exact rep_fA cs hn x
+    have hrb : ∀ S : List Int, (S.map fun x => rep (fB (cs.getD k 1) x)) = S.map (cs.getD k 1 * ·) := by
+      intro S; apply List.map_congr_left; intro x _; exact rep_fB _ x
+    rw [hra, hra, hrb, hrb, dropBase_scale _ (by omega), dropBase_scale _ (by omega),
+      flushBase_scale _ (by omega), flushBase_scale _ (by omega)]
+    exact twoProc_simLF law hl cs hc k hk _ _ (dropBase_ne L L hL)
 
 theorem twoPass_sim (L : List Int) :
     (twoPassR law (L.map (fA cs))).recs.map (proj' k) =
